@@ -7,6 +7,8 @@ def run(ctx):
     casefam.run_cases(ctx, "Record.tla", "MC_Record_thorough.cfg" if thorough else "MC_Record_quick.cfg", "record", "record")
     # the schema's rules for unsupported files inside histories: every Store edge (add/update/remove/list on unsupported files)
     storefam.run_family(ctx, seeds=[ctx.seed])
+    # the same rules along model histories (SimStore, 3 parameter sets, default switches) against one real directory each
+    storefam.histories(ctx, 200 if ctx.tier == "quick" else 2000)
     ctx.coverage["exhaustive"] = True
     ctx.coverage["rule"] = ("every combination of first-line field classes with at most %d deviations from a canonical record is built as "
                             "real bytes (both algorithms, .user and .admin) and exercised through authenticate (right / wrong / empty / "
